@@ -43,13 +43,13 @@ CLAIMS = {
         "technique": "TLC model checking of a TLA+ re-emission machine + TLC trace validation of decompression results against a TLA+ post-condition (all record boundaries)",
     },
     "C06": {
-        "text": "TLC model-checks the suffix-dictionary machine (spec/Compress.tla: 3 slots so that wrap-around and the pinned first slot are reached, MaxRefs = 2) over all sequences of up to 4 names: every dictionary entry resolves in the output to its suffix, the output is faithful, not longer, and needs no more than MaxRefs jumps; the two defects of the pinned tree (input-coordinate offsets, untracked chain depth) are negative controls TLC must detect. The real compress() is then run on accepted pointer-free packets (TLA+-born plain layout, generator, decompressed forms of compressed packets, families with nesting to depth 40, up to 70 distinct suffixes, 120..132-byte suffixes, names beyond offset 16383, mixed-case duplicates, OPT at every position) and TLC validates: accepted, not longer, same message up to case with the question byte-identical, OPT in place, and decompressing gives back the input up to case.",
+        "text": "TLC model-checks the suffix-dictionary machine (spec/Compress.tla: 3 slots so that wrap-around and the pinned first slot are reached, MaxRefs = 2) over all sequences of up to 4 names: every dictionary entry resolves in the output to its suffix, the output is faithful, not longer, and needs no more than MaxRefs jumps; the two defects of the pinned tree (input-coordinate offsets, untracked chain depth) are negative controls TLC must detect. A byte-level TLA+ transcription of compress() itself (spec/CompressImpl.tla: 32-slot dictionary with pinned first slot, 127-byte and 16384 limits, depth tracking, per-type data, RDLENGTH) is model-checked against the post-condition on 1 500 (thorough 40 000) Gen_S1 packets, on packets with 28..40 (80) distinct suffixes and on nesting to depth 20 (40), with the two historical defects as negative controls, and its output is compared byte for byte with the real code's on every recorded call (identical on all of them; reported as a note otherwise). The real compress() is then run on accepted pointer-free packets (TLA+-born plain layout, generator, decompressed forms of compressed packets, families with nesting to depth 40, up to 70 distinct suffixes, 120..132-byte suffixes, names beyond offset 16383, mixed-case duplicates, OPT at every position) and TLC validates: accepted, not longer, same message up to case with the question byte-identical, OPT in place, and decompressing gives back the input up to case.",
         "design_ref": "DESIGN.md section 5, C06",
         "note": TB + "Which suffixes are shared and the exact output bytes are not compared.",
         "technique": "TLC model checking of a TLA+ dictionary machine + TLC trace validation of compression results against a TLA+ post-condition",
     },
     "C07": {
-        "text": "The property-level function Rename!Replace on label sequences and a byte-level TLA+ transcription of replace_raw are shown equal by TLC on all (name, source, target, mode) over labels {a, A, ab} up to three labels (121 680 cases incl. overflow at a scaled limit). The real Renamer is run on accepted packets with (target, source, mode) drawn from the packet's own names at every label depth, case variants, partial-label near misses, self renames and overflowing targets; TLC validates each result: overflow iff some rewritten name exceeds 255 bytes, otherwise accepted output, identical skeleton (header, counts, order, types, classes, TTLs, opaque data, MX preference, SOA tail, OPT in place) and every name of the output equal, case-insensitively, to Replace of the corresponding input name; the input packet untouched.",
+        "text": "The property-level function Rename!Replace on label sequences and a byte-level TLA+ transcription of replace_raw are shown equal by TLC on all (name, source, target, mode) over labels {a, A, ab} up to three labels (121 680 cases incl. overflow at a scaled limit). The whole renamer is also transcribed (spec/RenameFull.tla = replace_raw + the compressor's dictionary), model-checked against the post-condition on the Gen_S1 universe x sources x targets x modes (14 400 cases, thorough 288 000) and compared byte for byte with the real output of every recorded call. The real Renamer is run on accepted packets with (target, source, mode) drawn from the packet's own names at every label depth, case variants, partial-label near misses, self renames and overflowing targets; TLC validates each result: overflow iff some rewritten name exceeds 255 bytes, otherwise accepted output, identical skeleton (header, counts, order, types, classes, TTLs, opaque data, MX preference, SOA tail, OPT in place) and every name of the output equal, case-insensitively, to Replace of the corresponding input name; the input packet untouched.",
         "design_ref": "DESIGN.md section 5, C07",
         "note": TB + "Compression choices of the output and letter case are not compared.",
         "technique": "TLC equivalence check of two TLA+ presentations of the replacement rule + TLC trace validation of rename results against a TLA+ post-condition",
